@@ -170,7 +170,7 @@ func tsBuild(id int, tc *tsCase) (*proto.Case, []int, []int) {
 func viewDoc(d []aChar) string {
 	var sb strings.Builder
 	for _, c := range d {
-		fmt.Fprintf(&sb, "g%d = o:m(%d)\n", c.T, c.T)
+		fmt.Fprintf(&sb, "---@class K%d\ng%d = o:m(%d)\n", c.T, c.T, c.T)
 	}
 	return sb.String()
 }
@@ -206,7 +206,7 @@ func tsBuildView(id int, tc *tsCase) (*proto.Case, *tsView) {
 		if len(exp) > 0 {
 			col := len(fmt.Sprintf("g%d = o:", exp[0].T))
 			for _, q := range []string{"textDocument/hover", "textDocument/definition", "textDocument/documentHighlight", "textDocument/references"} {
-				p := fmt.Sprintf(`{"textDocument":{"uri":%s},"position":{"line":0,"character":%d}`, jstr(uri(u)), col)
+				p := fmt.Sprintf(`{"textDocument":{"uri":%s},"position":{"line":1,"character":%d}`, jstr(uri(u)), col)
 				if strings.HasSuffix(q, "references") {
 					p += `,"context":{"includeDeclaration":true}`
 				}
@@ -260,7 +260,7 @@ func tsBuildView(id int, tc *tsCase) (*proto.Case, *tsView) {
 	return c, v
 }
 
-var reViewSym = regexp.MustCompile(`"name":"(g\d+)"`)
+var reViewSym = regexp.MustCompile(`"name":"([gK]\d+)"`)
 
 func tsJudgeView(c *Ctx, raw json.RawMessage, v *tsView, r *proto.Result) {
 	c.Rep.Eval("view:" + string(raw))
@@ -286,10 +286,12 @@ func tsJudgeView(c *Ctx, raw json.RawMessage, v *tsView, r *proto.Result) {
 		}
 		var miss, extra []string
 		for _, ch := range m.exp {
-			if !names[fmt.Sprintf("g%d", ch.T)] {
-				miss = append(miss, fmt.Sprintf("g%d", ch.T))
+			for _, n := range []string{fmt.Sprintf("g%d", ch.T), fmt.Sprintf("K%d", ch.T)} {
+				if !names[n] {
+					miss = append(miss, n)
+				}
+				delete(names, n)
 			}
-			delete(names, fmt.Sprintf("g%d", ch.T))
 		}
 		for n := range names {
 			extra = append(extra, n)
